@@ -614,3 +614,133 @@ Lemma add_assoc_refuted :
   getitem_name (add (add mono_a mono_b) mono_c) [120%N] = Some (TStr [118%N]) /\
   getitem_name (add mono_a (add mono_b mono_c)) [120%N] = Some (TPR (pr_of_list [TStr [117%N]; TStr [118%N]])).
 Proof. split; vm_compute; reflexivity. Qed.
+
+(* ------------------------------------------------------------------------------------------------------ *)
+(* the well-formedness invariant of reachable results: distinct keys, no empty occurrence list               *)
+(* ------------------------------------------------------------------------------------------------------ *)
+Definition wf_dict (d : list (str * list (tok * Z))) : Prop :=
+  NoDup (map fst d) /\ Forall (fun kv => snd kv <> []) d.
+Definition wf (r : pres) : Prop := wf_dict (dict r).
+
+Lemma dict_set_keys {V} (d : list (str * V)) k v k' :
+  In k' (map fst (dict_set d k v)) -> In k' (map fst d) \/ k' = k.
+Proof.
+  induction d as [|[k0 v0] d IH]; simpl; [intros [<-|[]]; auto|].
+  destruct (str_eqb k0 k) eqn:E; simpl; intros [<-|H]; auto. destruct (IH H); auto.
+Qed.
+Lemma dict_set_wf d k v : wf_dict d -> v <> [] -> wf_dict (dict_set d k v).
+Proof.
+  intros [Hn Hf] Hv. induction d as [|[k0 v0] d IH]; simpl.
+  - split; [repeat constructor; auto|repeat constructor; exact Hv].
+  - inversion Hn as [|? ? Hnotin Hn']; subst. inversion Hf as [|? ? Hv0 Hf']; subst.
+    destruct (str_eqb k0 k) eqn:E.
+    + split; [simpl; constructor; assumption|constructor; [exact Hv|exact Hf']].
+    + destruct (IH Hn' Hf') as [IH1 IH2]. split; [|constructor; assumption].
+      simpl. constructor; [|exact IH1]. intros Hin. destruct (dict_set_keys _ _ _ _ Hin) as [H| ->]; [contradiction|].
+      rewrite str_eqb_refl in E. discriminate.
+Qed.
+Lemma dict_del_keys {V} (d : list (str * V)) k k' : In k' (map fst (dict_del d k)) -> In k' (map fst d).
+Proof. induction d as [|[k0 v0] d IH]; simpl; [auto|]. destruct (str_eqb k0 k); simpl; intros H; [auto|destruct H; auto]. Qed.
+Lemma dict_del_wf d k : wf_dict d -> wf_dict (dict_del d k).
+Proof.
+  intros [Hn Hf]. induction d as [|[k0 v0] d IH]; simpl; [split; constructor|].
+  inversion Hn; subst. inversion Hf; subst. destruct (str_eqb k0 k); [split; assumption|].
+  destruct (IH H2 H4) as [IH1 IH2]. split; [|constructor; assumption].
+  simpl. constructor; [|exact IH1]. intros Hin. apply dict_del_keys in Hin. contradiction.
+Qed.
+Lemma map_positions_wf f d : wf_dict d -> wf_dict (map_positions f d).
+Proof.
+  intros [Hn Hf]. split.
+  - unfold map_positions. rewrite map_map. simpl. exact Hn.
+  - unfold map_positions. rewrite Forall_map. eapply Forall_impl; [|exact Hf]. intros [k occ] H. simpl in *. destruct occ; [contradiction|discriminate].
+Qed.
+
+Lemma setname_wf r k v p : wf r -> wf (pr_setname r k v p).
+Proof. intros H. unfold wf, pr_setname. simpl. apply dict_set_wf; [exact H|]. destruct (dict_get (dict r) k) as [[|? ?]|]; discriminate. Qed.
+
+Lemma iadd_wf a b : wf a -> wf (pr_iadd a b).
+Proof.
+  intros H. unfold pr_iadd. destruct (negb (pr_bool b)); [exact H|]. cbv zeta. unfold wf. simpl dict.
+  match goal with |- wf_dict (dict (fold_left ?f ?items a)) => generalize items end.
+  intros items. revert a H. induction items as [|[[k v] p] t IH]; intros a H; simpl; [exact H|]. apply IH. now apply setname_wf.
+Qed.
+
+Lemma apply_op_wf : forall r o, wf r -> wf (fst (apply_op r o)).
+Proof.
+  intros r o H. destruct o; cbn [apply_op fst]; try exact H.
+  - unfold opt_tok. destruct (getitem_int r i); exact H.
+  - unfold opt_tok. destruct (getitem_name r k); exact H.
+  - unfold opt_state, setitem_int. destruct (py_setitem (toks r) i v); exact H.
+  - unfold opt_state, setitem_slice. destruct (py_setslice (toks r) s vs); exact H.
+  - now apply setname_wf.
+  - now apply setname_wf.
+  - unfold opt_state, delitem_int. destruct (py_delitem (toks r) i); [|exact H].
+    destruct (slice_indices _ _) as [[[a b] c]|]; [|exact H]. cbn [fst]. unfold wf. simpl. now apply map_positions_wf.
+  - unfold opt_state, delitem_slice. destruct (py_delslice (toks r) s); [|exact H].
+    destruct (slice_indices _ _) as [[[a b] c]|]; [|exact H]. cbn [fst]. unfold wf. simpl. now apply map_positions_wf.
+  - unfold opt_state, delitem_name. destruct (contains r k); [|exact H]. cbn [fst]. unfold wf. simpl. now apply dict_del_wf.
+  - (* pop *)
+    unfold pop. destruct badkw; [exact H|].
+    destruct (match a0 with Some a => a | None => PKInt (-1) end) as [i|k].
+    + destruct (getitem_int r i); [|exact H]. unfold delitem_int. destruct (py_delitem (toks r) i); [|exact H].
+      destruct (slice_indices _ _) as [[[a b] c]|]; [|exact H]. cbn [fst]. unfold wf. simpl. now apply map_positions_wf.
+    + destruct (match match kwdefault with Some d => [d] | None => extra end with [] => true | _ :: _ => contains r k end); [|exact H].
+      destruct (getitem_name r k); [|exact H]. unfold delitem_name. destruct (contains r k); [|exact H].
+      cbn [fst]. unfold wf. simpl. now apply dict_del_wf.
+  - (* insert *) unfold wf, insert. simpl. now apply map_positions_wf.
+  - now apply iadd_wf.
+  - unfold wf, clear. simpl. split; constructor.
+  - now apply iadd_wf.
+Qed.
+
+Lemma run_ops_wf : forall ops r, wf r -> wf (snd (run_ops r ops)).
+Proof.
+  induction ops as [|o ops IH]; intros r H; simpl; [exact H|].
+  pose proof (apply_op_wf r o H) as H1. destruct (apply_op r o) as [r1 res]. cbn [fst] in H1.
+  specialize (IH r1 H1). destruct (run_ops r1 ops). exact IH.
+Qed.
+
+(* every constructor call yields a well-formed result (given a well-formed argument when that is a ParseResults) *)
+Lemma set_last_value_name_wf r k : wf r -> wf (set_last_value_name r k).
+Proof.
+  intros H. unfold set_last_value_name. destruct (name_in k (allnames r)); [exact H|].
+  destruct (dict_get (dict r) k) as [occ|]; [|exact H]. destruct (rev occ) as [|[[| | | | |v] p] rest]; try exact H.
+  unfold wf. simpl. apply dict_set_wf; [exact H|]. destruct (rev rest); discriminate.
+Qed.
+Lemma pr_new_wf x : (forall r, x = RPR r -> wf r) -> wf (pr_new x).
+Proof. intros H. destruct x as [s|v|l|r]; simpl; try (split; constructor). - destruct v; split; constructor. - now apply H. Qed.
+Lemma pr_init_gen_wf g x name asList modal_ : (forall r, x = RPR r -> wf r) -> wf (pr_init_gen g x name asList modal_).
+Proof.
+  intros Hx. pose proof (pr_new_wf x Hx) as H0. unfold pr_init_gen.
+  destruct name as [[|c n]|]; try exact H0.
+  cbv zeta. destruct (raw_is_null x); [exact H0|].
+  destruct asList.
+  - match goal with |- wf (if ?b then ?a else ?c) => assert (Ha : wf a) end.
+    { apply set_last_value_name_wf. apply setname_wf. exact H0. }
+    destruct (name_in _ _); [exact Ha|]. destruct x as [s|v|l|r]; [exact Ha|destruct v; exact Ha|exact Ha|exact Ha].
+  - destruct x as [s|v|l|r].
+    + apply setname_wf. exact H0.
+    + destruct v; try (apply setname_wf; exact H0). destruct l; [exact H0|apply setname_wf; exact H0].
+    + destruct l; [exact H0|apply setname_wf; exact H0].
+    + destruct (toks r); [exact H0|apply setname_wf; exact H0].
+Qed.
+
+(* under wf a present name always has a value: r[name] never raises IndexError *)
+Lemma wf_lookup r k : wf r -> contains r k = true -> exists v, pr_getname r k = Some v.
+Proof.
+  intros [_ Hf] Hc. unfold contains in Hc. unfold pr_getname.
+  destruct (dict_get (dict r) k) as [occ|] eqn:E; [|discriminate].
+  destruct (name_in k (allnames r)); [eauto|].
+  assert (occ <> []).
+  { clear Hc. induction (dict r) as [|[k0 v0] d IH]; simpl in E; [discriminate|]. inversion Hf; subst.
+    destruct (str_eqb k0 k); [injection E as <-; assumption|auto]. }
+  destruct occ as [|x t] using rev_ind; [contradiction|]. rewrite rev_app_distr. simpl. destruct x. eauto.
+Qed.
+Lemma lookup_forms_agree_wf : forall r k, wf r -> contains r k = true ->
+  exists v, getitem_name r k = Some v /\ getattr r k = RTok v /\ forall d, get r k d = v.
+Proof.
+  intros r k Hw Hc. destruct (wf_lookup r k Hw Hc) as [v E]. exists v. repeat split.
+  - exact E.
+  - unfold getattr. now rewrite E.
+  - intros d. unfold get, lookup_present. now rewrite Hc, E.
+Qed.
